@@ -131,7 +131,9 @@ def strliteral_branch(repo, dialect_name):
   if len(nodes) != 1 or others:
     raise AnalysisError('StrLiteral for %s: %d return sites, %d other outcomes'
                         % (dialect_name, len(nodes), len(others)))
-  return fi, list(nodes.values())[0].value
+  # locals holding the payload (`the_string = literal['the_string']`) are read
+  # as their definitions
+  return fi, FnView(repo, 'expr_translate.QL.StrLiteral').expand(list(nodes.values())[0].value)
 
 
 def test_strings():
